@@ -20,7 +20,9 @@ AcceptorKinds == {"all", "none", "some_roles_off", "ts_mismatch"}
 \* where the PresentationContext objects given to associate() come from: built for this request (no ID yet), taken from
 \* an earlier association (they carry the IDs they had there - with gaps where contexts were rejected), new ones in front
 \* of reused ones, or all carrying the same ID
-IdOrigins == {"fresh", "reused", "mixed", "dup"}
+\* "edited": the contexts are the AE's own requested contexts, and the application edits them (removes a context's transfer
+\* syntaxes) from a handler that runs while the request is being made - the request is the snapshot taken when associate() began
+IdOrigins == {"fresh", "reused", "mixed", "dup", "edited"}
 
 VARIABLE c
 Config == [calling : Titles, called : {"max16", "padded", "one"}, n : NContexts, shape : CtxShapes, maxpdu : MaxPdus,
